@@ -77,8 +77,22 @@ def no_process_wide_instances(ctx, rep, rule):
                 attr_calls.setdefault(n.func.value.attr, set()).add(n.func.attr)
             if isinstance(n, ast.Subscript) and isinstance(n.ctx, (ast.Store, ast.Del)) and isinstance(n.value, ast.Attribute):
                 attr_calls.setdefault(n.value.attr, set()).add("__setitem__")
+    # functions applied as decorators run while the package is imported: filling a registry there is set-up, not
+    # state carried from one call to the next
+    decorators = set()
+    for m in ix.modules.values():
+        for d in ast.walk(m.tree):
+            if isinstance(d, (ast.FunctionDef, ast.AsyncFunctionDef, ast.ClassDef)):
+                for dec in d.decorator_list:
+                    e = dec.func if isinstance(dec, ast.Call) else dec
+                    if isinstance(e, ast.Name):
+                        decorators.add(e.id)
+                    elif isinstance(e, ast.Attribute):
+                        decorators.add(e.attr)
     for f in ix.functions.values():
         if not f.module.startswith("jaqalpaq") or f.module.startswith("jaqalpaq._cli"):
+            continue
+        if f.name in decorators or (f.parent and ix.functions.get(f.parent) is not None and ix.functions[f.parent].name in decorators):
             continue
         local = set(f.all_params) | {n.id for n in ast.walk(f.node) if isinstance(n, ast.Name) and isinstance(n.ctx, ast.Store)}
         for n in walk_no_nested(f.node):
